@@ -29,7 +29,8 @@ EXPECTED = {
     # TransientRetried, UnknownKeyRetried and ContextErrorsSeen are TRUE since the repairs of X07-store-error-dropped /
     # f131123 / 7b63384 in /repo: their signatures ("transient-failure-dropped" fault / nokey / ctxdown) are ordinary
     # violations again
-    ("id-two-contents", "overlap"): "StoreAtomic",
+    # StoreAtomic is TRUE since the repair of X07-store-race in /repo (the id look-up is repeated under a lock that is held
+    # until the credential is written): "id-two-contents" overlap is an ordinary violation again
 }
 
 
